@@ -53,7 +53,7 @@ def run(ctx):
                'flag-1 points bias the plant by 0.5 e^2/ln10 dex: recovery is compared with the reference fitter on the same data, and the reference with the analytic bound')
     ctx.require_events('pipeline:run', 'recovered:rank1', 'text-row:checked', 'FitInfo.keep:post', 'Filter.rebin:post', 'FitInfo.filter_table:post',
                        'Source.from_ascii:post', 'Extinction.get_av:post')
-    ctx.require_regimes('mode:2d', 'mode:3d', 'style:v1', 'style:v2', 'exact-plant', 'noisy-plant', 'av0:at-bound', 'av0:interior', 'sources-per-file>1', 'plant:with-unused-or-limit-band')
+    ctx.require_regimes('mode:2d', 'mode:3d', 'style:v1', 'style:v2', 'exact-plant', 'noisy-plant', 'av0:at-bound', 'av0:interior', 'sources-per-file>1', 'plant:with-unused-or-limit-band', '3d:distance-range-not-in-kpc')
     n_pipe = 10 if ctx.quick else 200
     ip = 0
     tries = 0
@@ -190,7 +190,11 @@ def run(ctx):
         wsel = [('N', 1), ('N', 3), ('A', 0)][int(rng.integers(3))]
         try:
             aunit = [u.arcsec, u.arcmin, u.deg][int(rng.integers(3))]
-            dunit = [u.kpc, u.pc, u.cm][int(rng.integers(3))] if mode == '2d' else u.kpc      # (3-D: ends must stay exactly on the reference grid)
+            # the distance range may be given in any length unit (3-D: the ends are at least 1e-9 of a step away from where the number
+            # of grid points changes, so the round-off of a unit conversion cannot change the reference grid)
+            dunit = [u.kpc, u.pc, u.cm, u.Mpc][int(rng.integers(4))]
+            if mode == '3d' and dunit != u.kpc:
+                ctx.regime('3d:distance-range-not-in-kpc')
             fit(data, [f.name for f in filters], (theta * u.arcsec).to(aunit) if mode == '2d' else theta * u.arcsec, md, out, n_data_min=1,
                 extinction_law=law, av_range=(lo, hi), distance_range=(dr * u.kpc).to(dunit), output_format=sel, output_convolved=oc)
             fin = FitInfoFile(out, 'r')
